@@ -89,6 +89,26 @@ def run(tier, seed):
         par.pmap(work, all_tasks, extra=(False,), stats=st)
     par.pmap(work_degenerate, degenerate_gex_tasks(), stats=st, procs=1)
     bound_done = 2 if second else 1
+    # trace validation: cooperative run of every archetype, one trace per fault kind, plus a seed-selected sample
+    vcases = []
+    by_kind = {}
+    for arch, short, plan in all_tasks:
+        by_kind.setdefault((arch, plan[0][1][0]), (arch, short, plan))
+    pool = list(by_kind.values()) + H.pick(all_tasks, seed, 30 if tier == 'quick' else 200)
+    for arch, short, _l, _s in plan_spec:
+        pool.append((arch, short, []))
+    for arch, short, plan in pool:
+        a = F.ARCHETYPES[arch]
+        if a['role'] == 'client':
+            if plan:
+                continue
+            vcases.append({'kind': 'client', 'label': 'G', 'opts': ['-n'],
+                           'make': lambda: peer.Client(label='G', kex=['curve25519-sha256', 'kex-strict-c-v00@openssh.com'], key=['ssh-ed25519', 'rsa-sha2-512'],
+                                                       enc=['aes256-ctr', 'aes128-cbc'], mac=['hmac-sha2-256-etm@openssh.com'])})
+        else:
+            vcases.append({'label': '%s %s' % (arch, plan), 'opts': ['-n'] + a['opts'], 'make': (lambda a=a, short=short: a['make'](short)),
+                           'faults': {tuple(k): tuple(f) for k, f in plan}})
+    validated = H.validate_traces(vcases, st)
     return evidence.finish(
         PID, tier, seed, st, t0,
         rule='for each transcript archetype (A minimal, B host-key probes incl. certificates, C group exchange, D1 fixed DH group, '
@@ -98,7 +118,7 @@ def run(tier, seed):
              'thorough adds all pairs with a second message-level fault on a later connection; non-trivial = at least one deviation',
         assumptions=['environment model: mc/vnet.py, mc/peer.py (validated against real loopback TCP by mc/realnet.py when traces_validated>0)',
                      'random exponent pinned to the low end of its range; ValueError on an empty range is preserved'],
-        exhaustive=True, extra={'deviation_bound_completed': bound_done,
+        exhaustive=True, traces_validated=validated, extra={'deviation_bound_completed': bound_done,
                                 'truncation_offset_step': 'quick: A,E,E1,G every byte; B every 3rd; C every 7th; thorough: every byte'})
 
 
